@@ -67,6 +67,7 @@ ensures
     all_decodable(cells@) && antichain_set(cells@) && res is Ok ==> maximal(res->Ok_0@),                           // [C10:compact.maximal]
     res is Ok ==> no_merge_possible(res->Ok_0@),                                                                   // [C10:compact.fixed-point]
     res is Ok ==> (forall|s: Seq<u64>| sorted_scan(s) && s.to_set() == canon_set(cells@, cells@.len() as int) && no_merge_possible(s) ==> res->Ok_0@ == s),   // [C10:compact.fixed-point-returned-unchanged]
+    res is Ok ==> compact_fn_of_set(cells@, res->Ok_0@),                                                           // [C08:compact.function-of-input-set]
 //@at entry
 hide(enc); hide(dec); hide(decodable); hide(probe); hide(kids_ids); hide(valid); hide(is_desc); hide(anc);
 //@at before-return 1
@@ -79,6 +80,11 @@ proof {
             assert(canon_set(cells@, 0).contains(s[0]));
         }
         assert(s =~= Seq::<u64>::empty());
+    }
+    assert(compact_fn_of_set(cells@, Seq::<u64>::empty())) by {
+        assert(Seq::<u64>::empty().to_set() =~= canon_set(cells@, 0));
+        assert(sorted_scan(Seq::<u64>::empty()));
+        assert(iter_pass(Seq::<u64>::empty(), 0) == Seq::<u64>::empty());
     }
 }
 //@loop 1
@@ -114,6 +120,7 @@ proof {
 }
 //@at after "std_sort_by_scan_key(&mut current_cells);"
 let ghost init = current_cells@;
+let ghost mut npass: nat = 0;
 proof {
     // C08 order / multiplicity independence: the working list is the unique strictly sorted
     // enumeration of the input SET (lemma_sorted_unique); `cells` is not read again below.
@@ -138,10 +145,12 @@ invariant
     all_decodable(cells@) ==> refines(current_cells@, init),   // [C08:compact.pass-keeps-region]
     !changed ==> no_merge_possible(current_cells@),            // [C10:compact.last-pass-found-nothing]
     no_merge_possible(init) ==> current_cells@ == init,        // [C10:compact.nothing-to-merge-nothing-changes]
+    current_cells@ == iter_pass(init, npass),                  // [C08:compact.passes-of-the-normalised-list]
 decreases current_cells@.len(), (if changed { 1int } else { 0int }),
 //@at after-let i
 proof {
     lemma_comb_start(current_cells@);
+    assert(result@ + pass_from(current_cells@, 0) =~= pass_from(current_cells@, 0));
     if all_decodable(cells@) { assert(all_canonical(current_cells@)) by { reveal(refines); } lemma_refines_refl(current_cells@); }
 }
 //@loop 3
@@ -153,12 +162,15 @@ invariant
     !changed ==> (forall|a: int| 0 <= a < i ==> !merge_test(current_cells@, a)),                     // [C10:compact.no-merge-so-far]
     no_merge_possible(current_cells@) ==> !changed,                                                  // [C10:compact.merge-implies-test]
     all_decodable(cells@) ==> refines(comb(result@, current_cells@, i as int), current_cells@),   // [C08:compact.scan-keeps-region]
+    result@ + pass_from(current_cells@, i as int) == pass_from(current_cells@, 0),                // [C08:compact.scan-is-pass-function]
 decreases current_cells@.len() - i,
 //@at loop 3 body-start
 proof {
     lemma_comb_keep(result@, current_cells@, i as int);
     lemma_res_range(current_cells@[i as int], 29);
 }
+let ghost result0 = result@;
+let ghost i0 = i as int;
 //@loop 4
 invariant
     1 <= j <= expected_children,
@@ -182,6 +194,8 @@ proof {
 proof {
     assert(merge_test(current_cells@, i as int));
     lemma_dec_res(cell);
+    assert(parent == parent_id(cell));
+    assert(pass_from(current_cells@, i0) == seq![parent] + pass_from(current_cells@, i0 + expected_children));
     if all_decodable(cells@) {
         lemma_comb_merge(result@, current_cells@, i as int, cell, parent);
     }
@@ -189,21 +203,40 @@ proof {
 //@at before "result.push(cell);" #1
 proof {
     assert(!merge_test(current_cells@, i as int));
+    assert(pass_from(current_cells@, i0) == seq![cell] + pass_from(current_cells@, i0 + 1));
     assert(current_cells@.subrange(0, i as int).push(current_cells@[i as int]) =~= current_cells@.subrange(0, i as int + 1));
 }
 //@at before "result.push(cell);" #2
 proof {
     assert(!merge_test(current_cells@, i as int));
+    assert(pass_from(current_cells@, i0) == seq![cell] + pass_from(current_cells@, i0 + 1));
     assert(current_cells@.subrange(0, i as int).push(current_cells@[i as int]) =~= current_cells@.subrange(0, i as int + 1));
+}
+//@at after "i += expected_children;"
+proof {
+    assert(result@ + pass_from(current_cells@, i as int) =~= result0 + (seq![parent] + pass_from(current_cells@, i as int)));
+}
+//@at after "i += 1;" #1
+proof {
+    assert(result@ + pass_from(current_cells@, i as int) =~= result0 + (seq![cell] + pass_from(current_cells@, i as int)));
+}
+//@at after "i += 1;" #2
+proof {
+    assert(result@ + pass_from(current_cells@, i as int) =~= result0 + (seq![cell] + pass_from(current_cells@, i as int)));
 }
 //@at before "current_cells = result;"
 proof {
+    assert(result@ + pass_from(current_cells@, i as int) =~= result@);
+    npass = npass + 1;
+    assert(iter_pass(init, npass) == pass_from(iter_pass(init, (npass - 1) as nat), 0));
     assert(current_cells@.subrange(0, current_cells@.len() as int) =~= current_cells@);
     lemma_comb_end(result@, current_cells@);
     if all_decodable(cells@) { lemma_refines_trans(result@, current_cells@, init); }
 }
 //@at before-tail
 proof {
+    assert(sorted_scan(init) && init.to_set() == canon_set(cells@, cells@.len() as int));
+    assert(compact_fn_of_set(cells@, current_cells@));
     assert forall|s: Seq<u64>| sorted_scan(s) && s.to_set() == canon_set(cells@, cells@.len() as int) && no_merge_possible(s) implies current_cells@ == s by {
         lemma_sorted_scan_unique(s, init);
     }
